@@ -295,6 +295,9 @@ Proofs/VmdkDesc.vos Proofs/VmdkDesc.vok Proofs/VmdkDesc.required_vos: Proofs/Vmd
 Proofs/VmdkLayer.vo Proofs/VmdkLayer.glob Proofs/VmdkLayer.v.beautified Proofs/VmdkLayer.required_vo: Proofs/VmdkLayer.v Base/Arith.vo Base/Plan.vo Base/Table.vo Model/Chain.vo Proofs/Chain.vo Model/Vmdk.vo Proofs/Vmdk.vo
 Proofs/VmdkLayer.vio: Proofs/VmdkLayer.v Base/Arith.vio Base/Plan.vio Base/Table.vio Model/Chain.vio Proofs/Chain.vio Model/Vmdk.vio Proofs/Vmdk.vio
 Proofs/VmdkLayer.vos Proofs/VmdkLayer.vok Proofs/VmdkLayer.required_vos: Proofs/VmdkLayer.v Base/Arith.vos Base/Plan.vos Base/Table.vos Model/Chain.vos Proofs/Chain.vos Model/Vmdk.vos Proofs/Vmdk.vos
+Proofs/VmdkTotal.vo Proofs/VmdkTotal.glob Proofs/VmdkTotal.v.beautified Proofs/VmdkTotal.required_vo: Proofs/VmdkTotal.v Base/Arith.vo Base/Plan.vo Base/Table.vo Model/Vmdk.vo Model/VmdkDesc.vo Proofs/Vmdk.vo Proofs/VmdkDesc.vo
+Proofs/VmdkTotal.vio: Proofs/VmdkTotal.v Base/Arith.vio Base/Plan.vio Base/Table.vio Model/Vmdk.vio Model/VmdkDesc.vio Proofs/Vmdk.vio Proofs/VmdkDesc.vio
+Proofs/VmdkTotal.vos Proofs/VmdkTotal.vok Proofs/VmdkTotal.required_vos: Proofs/VmdkTotal.v Base/Arith.vos Base/Plan.vos Base/Table.vos Model/Vmdk.vos Model/VmdkDesc.vos Proofs/Vmdk.vos Proofs/VmdkDesc.vos
 Proofs/Vmx.vo Proofs/Vmx.glob Proofs/Vmx.v.beautified Proofs/Vmx.required_vo: Proofs/Vmx.v Model/Text.vo Model/XmlTree.vo Gen/DescTables.vo Model/Vmx.vo Proofs/Text.vo
 Proofs/Vmx.vio: Proofs/Vmx.v Model/Text.vio Model/XmlTree.vio Gen/DescTables.vio Model/Vmx.vio Proofs/Text.vio
 Proofs/Vmx.vos Proofs/Vmx.vok Proofs/Vmx.required_vos: Proofs/Vmx.v Model/Text.vos Model/XmlTree.vos Gen/DescTables.vos Model/Vmx.vos Proofs/Text.vos
@@ -337,9 +340,9 @@ Props/C08.vos Props/C08.vok Props/C08.required_vos: Props/C08.v Model/Qcow2.vos 
 Props/C09.vo Props/C09.glob Props/C09.v.beautified Props/C09.required_vo: Props/C09.v Gen/Effects.vo Model/Effects.vo Proofs/Effects.vo
 Props/C09.vio: Props/C09.v Gen/Effects.vio Model/Effects.vio Proofs/Effects.vio
 Props/C09.vos Props/C09.vok Props/C09.required_vos: Props/C09.v Gen/Effects.vos Model/Effects.vos Proofs/Effects.vos
-Props/C10.vo Props/C10.glob Props/C10.v.beautified Props/C10.required_vo: Props/C10.v Base/Plan.vo Base/Table.vo Model/Vmdk.vo Model/VmdkDesc.vo Proofs/Vmdk.vo Proofs/VmdkDesc.vo Proofs/Storage.vo Model/Chain.vo Proofs/Chain.vo Model/Hdd.vo Proofs/Hdd.vo
-Props/C10.vio: Props/C10.v Base/Plan.vio Base/Table.vio Model/Vmdk.vio Model/VmdkDesc.vio Proofs/Vmdk.vio Proofs/VmdkDesc.vio Proofs/Storage.vio Model/Chain.vio Proofs/Chain.vio Model/Hdd.vio Proofs/Hdd.vio
-Props/C10.vos Props/C10.vok Props/C10.required_vos: Props/C10.v Base/Plan.vos Base/Table.vos Model/Vmdk.vos Model/VmdkDesc.vos Proofs/Vmdk.vos Proofs/VmdkDesc.vos Proofs/Storage.vos Model/Chain.vos Proofs/Chain.vos Model/Hdd.vos Proofs/Hdd.vos
+Props/C10.vo Props/C10.glob Props/C10.v.beautified Props/C10.required_vo: Props/C10.v Base/Plan.vo Base/Table.vo Model/Vmdk.vo Model/VmdkDesc.vo Proofs/Vmdk.vo Proofs/VmdkDesc.vo Proofs/Storage.vo Proofs/VmdkTotal.vo Model/Chain.vo Proofs/Chain.vo Model/Hdd.vo Proofs/Hdd.vo
+Props/C10.vio: Props/C10.v Base/Plan.vio Base/Table.vio Model/Vmdk.vio Model/VmdkDesc.vio Proofs/Vmdk.vio Proofs/VmdkDesc.vio Proofs/Storage.vio Proofs/VmdkTotal.vio Model/Chain.vio Proofs/Chain.vio Model/Hdd.vio Proofs/Hdd.vio
+Props/C10.vos Props/C10.vok Props/C10.required_vos: Props/C10.v Base/Plan.vos Base/Table.vos Model/Vmdk.vos Model/VmdkDesc.vos Proofs/Vmdk.vos Proofs/VmdkDesc.vos Proofs/Storage.vos Proofs/VmdkTotal.vos Model/Chain.vos Proofs/Chain.vos Model/Hdd.vos Proofs/Hdd.vos
 Props/C11.vo Props/C11.glob Props/C11.v.beautified Props/C11.required_vo: Props/C11.v Model/Qcow2.vo Proofs/Qcow2.vo Model/Vmdk.vo Proofs/Vmdk.vo Base/Plan.vo Base/Table.vo Model/Vhd.vo Proofs/Vhd.vo Model/Vdi.vo Proofs/Vdi.vo Model/Vhdx.vo Proofs/Vhdx.vo Model/Hds.vo Proofs/Hds.vo Model/SnapChain.vo Proofs/SnapChain.vo Model/HyperV.vo Proofs/HyperV.vo
 Props/C11.vio: Props/C11.v Model/Qcow2.vio Proofs/Qcow2.vio Model/Vmdk.vio Proofs/Vmdk.vio Base/Plan.vio Base/Table.vio Model/Vhd.vio Proofs/Vhd.vio Model/Vdi.vio Proofs/Vdi.vio Model/Vhdx.vio Proofs/Vhdx.vio Model/Hds.vio Proofs/Hds.vio Model/SnapChain.vio Proofs/SnapChain.vio Model/HyperV.vio Proofs/HyperV.vio
 Props/C11.vos Props/C11.vok Props/C11.required_vos: Props/C11.v Model/Qcow2.vos Proofs/Qcow2.vos Model/Vmdk.vos Proofs/Vmdk.vos Base/Plan.vos Base/Table.vos Model/Vhd.vos Proofs/Vhd.vos Model/Vdi.vos Proofs/Vdi.vos Model/Vhdx.vos Proofs/Vhdx.vos Model/Hds.vos Proofs/Hds.vos Model/SnapChain.vos Proofs/SnapChain.vos Model/HyperV.vos Proofs/HyperV.vos
